@@ -1,5 +1,6 @@
 #pragma once
 
+#include <algorithm>
 #include <nano/core/hash.h>
 #include <nano/core/stream.h>
 #include <nano/tensor/tensor.h>
@@ -42,7 +43,8 @@ std::istream& read(std::istream& stream, tensor_t<tstorage, tscalar, trank>& ten
         !::nano::read(stream, iscalar) ||                          // sizeof(scalar)
         !::nano::read(stream, ihash) ||                            // hash(content)
         iversion != detail::hash_version() || static_cast<size_t>(irank) != trank ||
-        static_cast<size_t>(iscalar) != sizeof(tscalar))
+        static_cast<size_t>(iscalar) != sizeof(tscalar) ||
+        std::any_of(dims.begin(), dims.end(), [](const auto dim) { return dim < 0; })) // invalid dimensions
     {
         stream.setstate(std::ios_base::failbit);
         return stream;
